@@ -108,8 +108,8 @@ MUTANTS = [
      "                logger.log(self._error_log_level, s + str(e))",
      "                logger.log(self._error_log_level, s + str(e))\n                return", 300),
     ("c05-step-swallows-stop", "C05", "simulator.py",
-     "        except Exception as e:\n            print(\"Simulator step got exception: \" + str(e))",
-     "        except Exception as e:\n            print(\"Simulator step got exception: \" + str(e))\n            self._run_state = RunState.STOPPED\n            return", 300),
+     "        finally:\n            self.fire_timed(self._simulator_time,\n                            Simulator.STOP_EVENT, None)\n            self._run_state = RunState.STOPPED",
+     "        else:\n            self.fire_timed(self._simulator_time,\n                            Simulator.STOP_EVENT, None)\n            self._run_state = RunState.STOPPED", 300),
     ("c05-step-typeerror", "C05", "simulator.py",
      "print(\"Simulator step got exception: \" + str(e))", "print(\"Simulator step got exception: \" + e)", 300),
     ("c05-pause-not-honoured", "C05", "simulator.py",
